@@ -86,6 +86,7 @@ func c18Scenarios() []c18Scenario {
 			Step{Kind: "recover_end", B: 0, A: 1, Sec: &SecretRef{Kind: "recover", A: 1, Idx: -1}, Sec2: &SecretRef{Kind: "literal", Lit: goodPw}}},
 		{"recover_end_get", mod("recover"), []Step{{Kind: "recover_start", B: 0, A: 0}}, Step{Kind: "recover_end_get", B: 0, A: 0, Sec: &SecretRef{Kind: "recover", A: 0, Idx: -1}}},
 		{"totp_validate", both(mod("auth", "lock"), set("totp")), []Step{login(0, 1)}, totpLogin[1]},
+		{"totp_validate_onetime", both(mod("auth"), set("totp"), func(c *Config) { c.TOTPOneTime = true }), []Step{login(0, 1)}, totpLogin[1]},
 		{"totp_validate_recovery", both(mod("auth"), set("totp")), []Step{login(0, 1)}, Step{Kind: "totp_validate", B: 0, A: 1, Sec: &SecretRef{Kind: "recovery", A: 1, Idx: -1}}},
 		{"totp_validate_wrong", both(mod("auth", "lock"), set("totp")), []Step{login(0, 1)}, Step{Kind: "totp_validate", B: 0, A: 1, Sec: &SecretRef{Kind: "literal", Lit: "000000"}}},
 		{"sms_validate", both(mod("auth", "lock"), set("sms")), []Step{login(0, 2)}, smsLogin[1]},
@@ -349,6 +350,9 @@ func c18Judge(w *World, sc string, base, f c18Side) []Violation {
 		if p := o.presented("token"); p != nil && o.Step.Kind == "recover_end" && row != nil && o.RowsBefore[uid] != nil && row.RecoverSelector != "" && row.RecoverSelector == o.RowsBefore[uid].RecoverSelector {
 			bad = "recovery token"
 		}
+		if p := o.presented("code"); p != nil && o.Step.Kind == "totp_validate" && w.Cfg.TOTPOneTime && row != nil && row.TOTPSecretKey != "" && row.TOTPLastCode != p.Value {
+			bad = "TOTP code (replay protection on, last code not recorded)"
+		}
 		if bad != "" {
 			out = append(out, viol("C18", "session_on_unconsumed_credential", sc, o,
 				fmt.Sprintf("fault %s at %s: a session for %s was issued although the %s it presented is still stored as usable", kind, site, uid, bad), "fault", site+":"+kind))
@@ -456,10 +460,26 @@ func c18Run(t *testing.T, seed uint64, tier string) *RunResult {
 	plan.Steps = append(append([]Step(nil), sc.Prefix...), sc.Target)
 	res := &RunResult{Plan: plan, Stats: newStats()}
 	dg := newDigester(false)
+	seenSig := map[string]bool{}
+	var allCalls []string
+	// the statement asks for both the silent default error handler and one
+	// that writes a 500: every scenario is enumerated under both
+	for _, eh := range []bool{false, true} {
+		plan.Cfg.Err500 = eh
+		c18Enumerate(t, plan, sc.Name, res, dg, seenSig, &allCalls)
+	}
+	res.Nontrivial = len(allCalls) > 0
+	res.EndState = fmt.Sprintf("%s json=%v nogor=%v calls=%s", sc.Name, cfg.JSON, cfg.MailNoGoroutine, strings.Join(allCalls, ","))
+	res.Digest = dg.sum()
+	return res
+}
+
+// c18Enumerate runs the fault-free twin and every single-fault variant of one
+// scenario under one configuration.
+func c18Enumerate(t *testing.T, plan Plan, scName string, res *RunResult, dg *digester, seenSig map[string]bool, allCalls *[]string) {
 	base := c18RunSide(t, plan, dg, "base")
 	if base.obs == nil {
-		res.Digest = dg.sum()
-		return res
+		return
 	}
 	var calls []string
 	for _, c := range base.obs.Calls {
@@ -467,9 +487,10 @@ func c18Run(t *testing.T, seed uint64, tier string) *RunResult {
 			calls = append(calls, c)
 		}
 	}
-	res.Stats.Reach["c18_scenario_"+sc.Name]++
+	*allCalls = append(*allCalls, calls...)
+	res.Stats.Reach["c18_scenario_"+scName]++
 	res.Stats.Reach["c18_fault_points"] += len(calls)
-	seenSig := map[string]bool{}
+	res.Stats.Reach[fmt.Sprintf("c18_err500_%v", plan.Cfg.Err500)]++
 	for k, site := range calls {
 		kinds := []string{"err"}
 		if kindMeaningful(site, faultNotFound) {
@@ -489,7 +510,7 @@ func c18Run(t *testing.T, seed uint64, tier string) *RunResult {
 			res.Stats.Reach["c18_faulted_executions"]++
 			res.Stats.Faults[f.obs.FaultFired+":"+kind]++
 			res.Stats.Requests += f.w.Stats.Requests
-			vs := c18Judge(f.w, sc.Name, base, f)
+			vs := c18Judge(f.w, scName, base, f)
 			for key, n := range f.w.Stats.Reach {
 				if strings.HasPrefix(key, "c18_") {
 					res.Stats.Reach[key] += n
@@ -508,10 +529,6 @@ func c18Run(t *testing.T, seed uint64, tier string) *RunResult {
 			}
 		}
 	}
-	res.Nontrivial = len(calls) > 0
-	res.EndState = fmt.Sprintf("%s json=%v err500=%v nogor=%v calls=%s", sc.Name, cfg.JSON, cfg.Err500, cfg.MailNoGoroutine, strings.Join(calls, ","))
-	res.Digest = dg.sum()
-	return res
 }
 
 func init() {
